@@ -429,7 +429,7 @@ def h_pubsub(t, part):
 
 # ---- simple clients -------------------------------------------------------------------------------------------------------
 SC_OPS = ['emit', 'call+ack', 'event arrives', 'two events arrive', 'receive', 'receive timeout', 'server ends', 'disconnect',
-          'server closes the transport']
+          'server closes the transport', 'message arrives']
 
 
 def run_simple(asyncio_, plan, live_only=False, reconnection=False):
@@ -497,13 +497,16 @@ def run_simple(asyncio_, plan, live_only=False, reconnection=False):
         c = holder['c']
         for op in plan:
             name = SC_OPS[op]
-            if live_only and ended[0] and name in ('two events arrive', 'event arrives', 'server ends', 'server closes the transport'):
+            if live_only and ended[0] and name in ('two events arrive', 'event arrives', 'server ends', 'server closes the transport',
+                                                    'message arrives'):
                 continue
             if live_only:
                 if name == 'two events arrive':
                     tr.extend([('arrived', ['burst', 0]), ('arrived', ['burst', 1])])
                 elif name == 'event arrives':
                     tr.append(('arrived', ['news', len(tr) + 1]))
+                elif name == 'message arrives':
+                    tr.append(('arrived', ['message', 'text']))
                 elif name in ('server ends', 'disconnect', 'server closes the transport'):
                     if name != 'disconnect':
                         tr.append(('ended',))
@@ -533,6 +536,11 @@ def run_simple(asyncio_, plan, live_only=False, reconnection=False):
                     drv.loop.settle()
             elif name == 'disconnect':
                 api('disconnect', lambda: sc.disconnect())
+            elif name == 'message arrives':
+                # what the server's send() produces: an event named 'message'
+                drv.call(c.eio.recv(worlds.encode_frames(P(packet.EVENT, data=['message', 'text'], namespace='/chat'))[0]))
+                if asyncio_:
+                    drv.loop.settle()
             elif name == 'server closes the transport':
                 drv.call(c.eio.server_close())          # engine.io CLOSE packet
                 if asyncio_:
